@@ -71,6 +71,7 @@ class Judgement:
     nontrivial: List[str] = field(default_factory=list)
     has_mem_operand: bool = False
     modes: Tuple[str, ...] = ()
+    length: int = 0
     obs: Optional[Dict[str, Any]] = None
 
 
@@ -283,6 +284,7 @@ def judge(case: Dict[str, Any], want_obs: bool = False) -> Judgement:
         j.status = "undecodable"
         return j
     toks, length = r
+    j.length = length
     j.text = TP.text(toks)
     try:
         mn, ops = CP.parse(toks)
@@ -408,7 +410,7 @@ def flip_checks(case: Dict[str, Any], j: Judgement, st: S.Stream) -> List[Tuple[
     regs = case["regs"]
     init = pycore.HashMemory(int(case.get("seed", 0)), {pycore.canon(a): v & 0xFF for a, v in case.get("mem", [])})
     try:
-        exps = RS.expectations(j.mn, j.ops, regs, init.peek, len(bytes.fromhex(annotate(case, j)["code"])))
+        exps = RS.expectations(j.mn, j.ops, regs, init.peek, j.length)
     except (RS.Skip, RS.Unmodelled):
         return []
     e = exps[0]
@@ -449,6 +451,7 @@ def flip_checks(case: Dict[str, Any], j: Judgement, st: S.Stream) -> List[Tuple[
 
 def explore_shard(task: Tuple[str, int, int, int, int, int, int]) -> Report:
     prop, shard, nshards, seed, count, imax, salt = task
+    seed = mix32(seed, salt, 0x5EED)     # decorrelate neighbouring VERIF_SEED values
     rep = Report()
     ops_list = GN.opcodes()
     npairs = len(ops_list) * len(G.PRES)
